@@ -5,7 +5,7 @@ check('C14',
   'DESIGN.md 5 C14')
 check('C01',
   'bounded exhaustive enumeration (complete product of route tables x methods x paths) of the real router against a reference resolver',
-  'Every ordered table of up to 3 patterns (4 over a core pool) drawn from a 25-pattern pool that contains colliding inputs for every indexing shortcut of the router, with every method-set assignment, is registered on a real router and every one of 259 paths x 3-4 methods is resolved through Router.Match and ServeHTTP and compared with an independent reference resolver (back-tracking matcher + the documented tier rule). Nothing is sampled; the enumeration is complete within the stated alphabets.',
+  'Every ordered table of up to 3 patterns (4 over a core pool) drawn from a 26-pattern pool that contains colliding inputs for every indexing shortcut of the router, with every method-set assignment, is registered on a real router and every one of 259 paths x 3-4 methods is resolved through Router.Match and ServeHTTP and compared with an independent reference resolver (back-tracking matcher + the documented tier rule). Nothing is sampled; the enumeration is complete within the stated alphabets.',
   'Small-scope: <=4 routes, <=3 path segments over 6 segment strings. The reference matcher and resolver (mc/refmodel/route.go) are trusted; they share no code with rux and are sanity-tested against hand-computed cases.',
   'DESIGN.md 5 C01')
 check('C02',
@@ -20,7 +20,7 @@ check('C06',
   'DESIGN.md 5 C06')
 check('C07',
   'explicit-state model checking to fix-point over request histories (cache-state graph) with a non-caching twin as oracle',
-  'For 7 route tables x 4 option subsets x capacities 0..3 (thorough 0..4) the complete graph of reachable cache states of the real router is explored breadth-first (state = cache keys in recency order with the route and params each entry holds); in every state every request of an 11/14-request alphabet (hits, misses, evictions, HEAD->GET, 405 probes, fallback route, 404) is executed through Match and ServeHTTP and must observe exactly what the same router without caching observes. Fix-point reached: every state x every request.',
+  'For 8 route tables x 8 option subsets x capacities 0..3 (thorough 0..4) the complete graph of reachable cache states of the real router is explored breadth-first (state = cache keys in recency order with the route and params each entry holds); in every state every request of an 12/15-request alphabet (hits, misses, evictions, HEAD->GET, 405 probes, fallback route, 404) is executed through Match and ServeHTTP and must observe exactly what the same router without caching observes. Fix-point reached: every state x every request.',
   'The canonical state is the cache content only (tables/options are frozen after registration, contexts are reset - C10). Bounded request alphabet and tables.',
   'DESIGN.md 5 C07')
 check('C11',
